@@ -1101,6 +1101,9 @@ impl<'a> GeneratorState<'a> {
                     }
                 }
             }
+            // The post-increments of the returned expression (and a Y borrowed by it) take effect before
+            // control leaves the function: the end of the statement is never reached
+            self.purge_deferred_plusplus_and_savey()?;
             if f.inline {
                 self.asm(JMP, &ExprType::Label(".endof".into()), 0, false)?;
             } else {
